@@ -268,6 +268,27 @@ func (n *Normer) CondOf(v ssa.Value) *Cond {
 				return total
 			}
 		}
+	case *ssa.Extract:
+		// boolean result of a multi-result helper without loops: true on the returns that yield true
+		if call, ok := x.Tuple.(*ssa.Call); ok && isBoolType(x.Type()) {
+			if _, bound := n.Bind[v]; !bound {
+				if cal := call.Common().StaticCallee(); cal != nil && isRepoFunc(cal) && cal.Blocks != nil && n.depth < n.MaxInline &&
+					!n.NoInline[n.P.FuncName(cal)] && pureLoopFree(cal) && len(n.Ctx) < 4 {
+					savedCtx := n.Ctx
+					n.Ctx = append(append([]ssa.CallInstruction{}, savedCtx...), call)
+					n.depth++
+					out := cFalse
+					for _, ret := range returnsOf(cal) {
+						if x.Index < len(ret.Results) {
+							out = cOr(out, cAnd(n.ReachCond(cal, nil, ret.Block()), boolValueCond(n, cal, ret.Results[x.Index], ret.Block())))
+						}
+					}
+					n.depth--
+					n.Ctx = savedCtx
+					return out
+				}
+			}
+		}
 	case *ssa.Call:
 		// pure boolean helper of the repository without loops: its truth condition with the
 		// arguments substituted (extracting a predicate into a helper does not change the form)
